@@ -35,7 +35,7 @@ def gen_specs(rng: random.Random, tier: str, n: int) -> list[dict]:
     specs = []
     for i in range(n):
         seed = rng.getrandbits(48)
-        big = tier == "thorough" and i % 400 == 0
+        big = (tier == "thorough" and i % 400 == 0) or i % 100 == 57  # 16..20-cell sides: 128+ cells
         specs.append(_gen.gen_spec(rng, seed, 7 if tier == "quick" else 12, constrained_bias=0.85, big=big, long=(i % 100 == 7)))
     return specs
 
